@@ -15,6 +15,7 @@ Helper lemmas: `Lemmas/Smo.lean` (invariant, flips, shrink/unshrink), `Lemmas/Sm
 `Lemmas/SmoObjective.lean` (dual objective), `Lemmas/Box2d.lean` (shape of the generated 2-D box solver).
 -/
 import SharkVerif.Lemmas.SolveLoop
+import SharkVerif.Lemmas.ShrinkFinal
 import Mathlib.Tactic.FieldSimp
 namespace SharkVerif.C08
 open SharkVerif.Qp SharkVerif.Gen.Analytic SharkVerif.Smo
@@ -522,6 +523,84 @@ theorem shrink_sound {s : RS} (h : Inv s) (eps : Rat) (hs : s.shrinkOn = true) :
   obtain ⟨h1, h2, h3, h4, h5⟩ := removals_spec st.2.1 st.2.2 st.1.active st.1 hI hs' (Nat.le_refl _) hB p hp
   have hpe : p.1.eqc = s.eqc := h5.trans he
   exact ⟨h1, h2, fun e => noGain_svm h1 (hpe.trans e) h3 h2 h4, fun e => noGain_box h1 (hpe.trans e) h2 h4⟩
+
+/-- **shrink_final_sound**: `shrink_sound` read off the FINAL state of `shrink(eps)` -- exactly what the independent
+oracle of the harness checks on the real code after every call.  Let `m` be the size of the start set of the call
+(`shrinkStart_size`: ALL `n` variables when the call un-shrinks first -- `m_isUnshrinked` false and KKT gap of the
+active variables below `10·eps` --, the active ones otherwise) and `s'` the state after the call.  Then
+* `s'.active ≤ m` and the positions `s'.active ≤ a < m` hold the variables removed by this call;
+* every variable of the start set carries its TRUE gradient `lin − K·α` in `s'` (also the removed ones, and also the
+  ones the un-shrink re-activated), is inside its box and has correct flags: the invariant holds for `s'` with `active`
+  reset to `m`;
+* equality-constrained kind: a removed variable `a` and ANY other variable `b` of the start set -- still active or
+  removed by the same call -- admit no feasible ascending first-order move (`PairNoAscent`: `a` can go up and `b` down
+  only if `g a < g b`, `a` down and `b` up only if `g b < g a`, strictly);
+* box kind: a removed variable cannot move in a direction of non-negative slope (`SingleNoAscent`).
+In particular a KKT violator that an earlier call had removed and that the un-shrink re-activates takes part in the
+thresholds of the re-shrinking: neither it nor any variable that could pair with it is removed. -/
+theorem shrink_final_sound {s : RS} (h : Inv s) (eps : Rat) (hs : s.shrinkOn = true) :
+    let m := (shrinkStart s eps).1.active
+    let s' := (s.shrink eps).1
+    s'.active ≤ m ∧ Inv ({ s' with active := m } : RS) ∧
+    (∀ a, a < m → s'.g a = s'.lin a - Kalpha s' a) ∧
+    (s.eqc = true → ∀ a b, s'.active ≤ a → a < m → b < m → b ≠ a → PairNoAscent s' a b) ∧
+    (s.eqc = false → ∀ a, s'.active ≤ a → a < m → SingleNoAscent s' a) := by
+  intro m s'
+  obtain ⟨hI, hs', he, hB⟩ := shrinkStart_spec h eps hs
+  have r := shrinkGo_final (shrinkStart s eps).2.1 (shrinkStart s eps).2.2 m (shrinkStart s eps).1.active
+    (shrinkStart s eps).1 hI hs' (Nat.le_refl _) (Nat.le_refl _) hI hB
+    (fun _ x _ hx hxm _ _ => absurd hxm (Nat.not_lt.mpr hx))
+    (fun _ x hx hxm => absurd hxm (Nat.not_lt.mpr hx))
+  have e : s' = State.shrinkGo (shrinkStart s eps).2.1 (shrinkStart s eps).2.2 (shrinkStart s eps).1.active
+      (shrinkStart s eps).1 := shrink_eq s eps hs
+  rw [← e] at r
+  obtain ⟨r1, r2, _, r4, r5⟩ := r
+  exact ⟨r1, r2, fun a ha => r2.grad a ha, fun e' => r4 (he.trans e'), fun e' => r5 (he.trans e')⟩
+
+/-- the start set of `shrink(eps)`: all `n` variables exactly when the call un-shrinks first -/
+theorem shrinkStart_size (s : RS) (eps : Rat) :
+    (shrinkStart s eps).1.active =
+      if (!s.unshrinked && decide ((s.maxKKT s.active).1 - (s.maxKKT s.active).2 < (10.0 : Rat) * eps)) = true
+      then s.n else s.active := shrinkStart_active s eps
+
+/-- features of the witness: movers `(1), (−1)`, a leverage point `(−8)`, a bystander `(0)`; linear kernel -/
+def wgX (k : Nat) : Rat := if k = 0 then 1 else if k = 1 then -1 else if k = 2 then -8 else 0
+/-- cold start of the witness problem (equality-constrained kind, shrinking on) -/
+def wrongGuess0 : RS := State.init 4 (fun a b => wgX a * wgX b) true true
+  (fun k => if k = 0 then 1 else if k = 1 then -1 else if k = 2 then -3 else 2)
+  (fun k => if k = 1 then -4 else if k = 3 then -1 else 0)
+  (fun k => if k = 0 then 4 else if k = 2 then 1 else 0)
+/-- `shrink(1/1000)` at the cold start removes variables 2 and 3 (correctly, at that moment); the step on the remaining
+pair `(0,1)` solves the active sub-problem and moves the gradient of the shrunk variable 2 from −3 to 5 -/
+def wrongGuess : RS := run wrongGuess0 [Op.shrink (1/1000), Op.smo 0 1]
+
+/-- **the un-shrink branch is inhabited, with a wrongly shrunk variable present, and the re-computation of the thresholds
+over ALL variables cannot be dropped**: in `wrongGuess` (reachable: invariant holds) two variables are shrunk and one of
+them has become a KKT violator (it can go up, active variable 1 can go down, slope `g 2 − g 1 = 5` with the true gradients
+that un-shrinking restores).  `shrink(1/1000)` un-shrinks (KKT gap of the active pair `0 < 10·eps`, first time) and,
+with the thresholds recomputed over all four variables, removes nothing.  With the thresholds of the two formerly
+active variables instead (the seeded defect `shrink-stale-active-count-after-unshrink`) the same loop removes variable 3
+although the pair (2 up, 3 down) is a feasible ascending move: `PairNoAscent` fails for it. -/
+theorem shrink_unshrink_branch_witness :
+    Inv wrongGuess ∧ wrongGuess.shrinkOn = true ∧ wrongGuess.n = 4 ∧ wrongGuess.active = 2 ∧
+    wrongGuess.unshrinked = false ∧
+    wrongGuess.unshrink.g 2 - wrongGuess.unshrink.g 1 = 5 ∧
+    (shrinkStart wrongGuess (1/1000)).1.active = 4 ∧ (wrongGuess.shrink (1/1000)).1.active = 4 ∧
+    (State.shrinkGo (wrongGuess.maxKKT 2).1 (wrongGuess.maxKKT 2).2 4 wrongGuess.unshrink).active = 3 ∧
+    ¬ PairNoAscent (State.shrinkGo (wrongGuess.maxKKT 2).1 (wrongGuess.maxKKT 2).2 4 wrongGuess.unshrink) 3 2 := by
+  refine ⟨?_, by decide +kernel, by decide +kernel, by decide +kernel, by decide +kernel, by decide +kernel,
+          by decide +kernel, by decide +kernel, by decide +kernel, ?_⟩
+  · refine reachable_inv _ _ (init_inv 4 _ true true _ _ _ (fun x y => mul_comm _ _) ?_) ?_
+    · intro k _; constructor <;> (repeat' split) <;> norm_num
+    · exact ⟨trivial, ⟨by decide +kernel, by decide +kernel, fun _ => by decide +kernel⟩, trivial⟩
+  · intro h
+    have := h.2 (by decide +kernel) (by decide +kernel)
+    revert this
+    decide +kernel
+/-- non-vacuity of `shrink_final_sound` (its hypotheses are those of `shrink_sound`): a cold-start problem -/
+example : ∃ s : RS, Inv s ∧ s.shrinkOn = true :=
+  ⟨State.init 2 (fun a b => if a = b then 1 else 0) true true (fun k => if k = 0 then -1 else 1) (fun _ => 0) (fun _ => 1),
+   init_inv 2 _ true true _ _ _ (by intro x y; by_cases hxy : x = y <;> simp [hxy, eq_comm]) (fun _ _ => by norm_num), rfl⟩
 
 /-- non-vacuity of `shrink_sound_step`: two variables, box `[0,1]`, `lin = (−1, 1)`, cold start: variable 0 sits at its
 lower bound with negative gradient and passes the shrink test -/
